@@ -147,3 +147,71 @@ Definition admissible (c e lo hi fl : R) : Prop :=
 
 (* the tolerance of the correspondence runs *)
 Definition ctol : R := 1e-12.
+
+(* ---- the rest of the simulated roboRIO -------------------------------- *)
+
+(* Everything else a robot program can read from the (simulated) roboRIO
+   while getDistance() runs, as far as the correspondence runs vary it:
+   [pin] is AnalogInput.getVoltage() of the sensor's channel; the other
+   fields are what wpilib.RobotController reports --
+   getVoltage5V / getVoltage3V3 / getVoltage6V (the user rails; the 5 V rail
+   powers the sensor), getBatteryVoltage = getInputVoltage,
+   getEnabled5V / 3V3 / 6V (rail switched on), and [aux], in this order:
+   getCurrent5V, getCurrent3V3, getCurrent6V, getInputCurrent,
+   getBrownoutVoltage, getCPUTemp.
+   Any double that is not NaN can be put on each of them
+   (wpilib.simulation.RoboRioSim), so they are [xreal]. *)
+Record rio : Type := {
+  pin : xreal;
+  user5V : xreal; user3V3 : xreal; user6V : xreal;
+  vin : xreal;
+  active5V : bool; active3V3 : bool; active6V : bool;
+  aux : list xreal
+}.
+
+(* getDistance() for a possibly infinite voltage with the exception kept
+   visible (max(+inf, FL) = +inf and pow(+inf, E) = 0.0 do not raise;
+   max(-inf, FL) = FL). *)
+Definition reading_x_opt (c e lo hi fl : R) (v : xreal) : option R :=
+  match v with
+  | Fin r => reading_opt c e lo hi fl r
+  | PInf => Some (clamp lo hi 0)
+  | NInf => reading_opt c e lo hi fl fl
+  end.
+
+(* getDistance() of a driver on that roboRIO.  The three statements of the
+   method read self.distance.getVoltage() and nothing else: the model has NO
+   other input, i.e. the record is consulted through [pin] only. *)
+Definition rio_distance_opt (c e lo hi fl : R) (r : rio) : option R :=
+  reading_x_opt c e lo hi fl (pin r).
+
+Definition rio_distance (c e lo hi fl : R) (r : rio) : R :=
+  reading_x c e lo hi fl (pin r).
+
+(* AnalogInputSim.setVoltage(v): the pin changes, nothing else does *)
+Definition rio_set_pin (r : rio) (v : xreal) : rio :=
+  {| pin := v;
+     user5V := user5V r; user3V3 := user3V3 r; user6V := user6V r;
+     vin := vin r;
+     active5V := active5V r; active3V3 := active3V3 r; active6V := active6V r;
+     aux := aux r |}.
+
+(* helper.setDistance(d) on that roboRIO (d possibly infinite): the voltage
+   it computes from d alone goes on the pin *)
+Definition rio_set_distance (c e lo hi : R) (r : rio) (d : xreal) : rio :=
+  rio_set_pin r (Fin (volts_x c e lo hi d)).
+
+(* two roboRIOs that differ at most in the sensor's pin *)
+Definition same_rails (r1 r2 : rio) : Prop :=
+  user5V r1 = user5V r2 /\ user3V3 r1 = user3V3 r2 /\ user6V r1 = user6V r2 /\
+  vin r1 = vin r2 /\ active5V r1 = active5V r2 /\ active3V3 r1 = active3V3 r2 /\
+  active6V r1 = active6V r2 /\ aux r1 = aux r2.
+
+(* the correspondence statement for one sample taken on roboRIO [r]: the
+   implementation returned (did not raise) and its value [x] is within [tol]
+   of the model's *)
+Definition rio_reads (c e lo hi fl tol : R) (r : rio) (x : R) : Prop :=
+  match rio_distance_opt c e lo hi fl r with
+  | Some y => close tol x y
+  | None => False
+  end.
